@@ -506,10 +506,18 @@ class Ctx:
 
 
 def load_known():
-    p = os.path.join(VERIF, "known_findings.json")
-    if not os.path.exists(p):
-        return []
-    return json.load(open(p)).get("findings", [])
+    """known_findings.json plus per-property fragments known_findings.d/*.json (all committed, never written at run time)"""
+    out, seen = [], set()
+    paths = [os.path.join(VERIF, "known_findings.json")] + sorted(glob.glob(os.path.join(VERIF, "known_findings.d", "*.json")))
+    for p in paths:
+        if not os.path.exists(p):
+            continue
+        for k in json.load(open(p)).get("findings", []):
+            if k.get("id") in seen:
+                continue
+            seen.add(k.get("id"))
+            out.append(k)
+    return out
 
 
 def match_known(known, sig):
